@@ -42,6 +42,18 @@ Theorem C19_answers_history_independent :
        (a_state a1 = Typechecked -> a_state a2 = Typechecked -> same_diags (a_tdiags a1) (a_tdiags a2))).
 Proof. exact answers_history_independent. Qed.
 
+(* no stale and no missing diagnostics: what was last published for a current file is what a
+   fresh server computes from the final documents, and every open document has been published.
+   For the code with the proposed close_file patch on every history; for the code as it is on
+   histories without didClose (C19_closed_buffer_refuted shows that restriction is needed). *)
+Theorem C19_no_dup_no_stale : forall cf pick disk rank fuel h w, good pick disk rank fuel h ->
+  (purge_closed cf = true \/ no_close h) ->
+  run cf pick disk fuel h = Ok w ->
+  (forall p ds, w_pub w p = Some ds -> live_id w p <> None ->
+     same_diags ds (expect (final_docs disk h) fuel p)) /\
+  (forall p, bufs_after no_bufs h p <> None -> w_pub w p <> None).
+Proof. exact diagnostics_fresh. Qed.
+
 (* supporting invariants *)
 Theorem C19_rev_imports_complete : forall cf pick disk rank fuel h w, good pick disk rank fuel h ->
   run cf pick disk fuel h = Ok w ->
